@@ -1595,7 +1595,7 @@ def inline_new_helpers(P, baseline, max_depth=4, max_blocks=120):
                         continue
                 elif k in baseline:
                     continue
-                if len(g.blocks) > max_blocks or f.key in _reach_keys(P, g, 4):
+                if len(g.blocks) > max_blocks or _self_recursive_new(P, g, baseline):
                     continue
                 sites.append((b, g))
             for b, g in sites:
@@ -1637,6 +1637,33 @@ def inline_new_helpers(P, baseline, max_depth=4, max_blocks=120):
     P._cg = None
     P._callers = None
     return done
+
+
+def _self_recursive_new(P, g, baseline, depth=6):
+    """can the new helper g reach itself through new (non-baseline) functions only?  (a call back into a pinned function is kept
+    as a call, so it cannot make the splice recurse)"""
+    seen = set()
+    st = [(g.key, 0)]
+    while st:
+        k, d = st.pop()
+        h = P.fns.get(k)
+        if h is None or d > depth:
+            continue
+        for blk in h.blocks:
+            t = blk['t']
+            if t['k'] != 'call':
+                continue
+            c = strip_generics(t['res']) if t.get('res') else (strip_generics(t['callee']) if t.get('callee') else None)
+            if c is None or c not in P.fns or (c in baseline and P.fns[c].kind != 'closure'):
+                continue
+            if P.fns[c].kind == 'closure' and not t.get('devirt'):
+                continue
+            if c == g.key:
+                return True
+            if c not in seen:
+                seen.add(c)
+                st.append((c, d + 1))
+    return False
 
 
 def _reach_keys(P, g, depth):
